@@ -17,7 +17,7 @@ ALLOWED_FAIL = set(BASE["flaky"]) | set(BASE["always_fail"])
 
 
 def sh(cmd, cwd=None, timeout=3600):
-    p = subprocess.run(["bash", "-c", ENV + cmd], cwd=cwd, capture_output=True, text=True, timeout=timeout)
+    p = subprocess.run(["bash", "-c", ENV + cmd], cwd=cwd, capture_output=True, text=True, errors="replace", timeout=timeout)
     return p.returncode, p.stdout + p.stderr
 
 
